@@ -507,6 +507,7 @@ class BasicZoneProcessor: public ZoneProcessor {
       }
 
       mYearTiny = yearTiny;
+      mIsFilled = false; // stays false if the year turns out to be invalid
       mNumTransitions = 0; // clear cache
 
       if (yearTiny + LocalDate::kEpochYear < mZoneInfo.startYear() - 1
